@@ -90,11 +90,15 @@ def cleanHandle (st : CleanSt) (cmd : String) (a : Args) : CleanSt × String :=
       (st, s!"listed={showPaths listed}")
     | none => (st, "bad-op")
   | "clean.root" =>
-    -- `clean.root base= tree= common=<path> sect=<paths of pyproject.toml files with a pytask section>` → `root=<path> config=<path>|-`
+    -- `clean.root base= tree= common=<path> tables=<path>|<dotted table>,…` (every table of every pyproject.toml)
+    --   → `root=<path> config=<path>|-`
     match fs? with
     | some (base, forest) =>
-      let sect := decPaths (a.get "sect")
-      let r := findRoot (wrapBase base forest) (fun p => sect.contains p) (decPath (a.get "common"))
+      let tables : List (Path × List String) := (splitList (a.get "tables")).filterMap fun e =>
+        match e.splitOn "|" with
+        | [p, t] => some (decPath p, (t.splitOn ".").map fun k => String.ofList (decName k))
+        | _ => none
+      let r := findRoot (wrapBase base forest) (configSectionPresent tables) (decPath (a.get "common"))
       (st, s!"root={encPath r.1} config={match r.2 with | some c => encPath c | none => "-"}")
     | none => (st, "bad-op")
   | "clean.run" =>
